@@ -37,12 +37,12 @@ type C05Op struct {
 }
 
 type C05Case struct {
-	Native    bool    `json:"native"`
-	N         int     `json:"n"`
-	MustKeep  int64   `json:"must_keep_ns"`
-	RemoveOld int64   `json:"remove_old_ns"`
-	Ops       []C05Op `json:"ops"`
-	ExcludedEmpty int `json:"excluded_empty,omitempty"`
+	Native        bool    `json:"native"`
+	N             int     `json:"n"`
+	MustKeep      int64   `json:"must_keep_ns"`
+	RemoveOld     int64   `json:"remove_old_ns"`
+	Ops           []C05Op `json:"ops"`
+	ExcludedEmpty int     `json:"excluded_empty,omitempty"`
 }
 
 type c05Fleet struct {
@@ -54,11 +54,11 @@ type c05Fleet struct {
 	// bucket replay
 	present map[string]bool
 	decoded map[string]map[string]map[string]Ver // blob -> dbi -> key -> version (nil if undecodable)
-	joinTS  map[string]uint64                     // "dbi/key" -> best published timestamp
-	ownPrev map[string]string                     // instance -> its previous newest decodable snapshot
+	joinTS  map[string]uint64                    // "dbi/key" -> best published timestamp
+	ownPrev map[string]string                    // instance -> its previous newest decodable snapshot
 	stats   struct {
 		emptiedRestart, cleanerDeletedNewest, crashes, restarts, mutations int
-		soleCopyAtRisk                                                  bool
+		soleCopyAtRisk                                                     bool
 	}
 }
 
@@ -263,6 +263,80 @@ func (f *c05Fleet) step(i int, n int, until string) error {
 	return nil
 }
 
+// exec executes one generated operation and replays the bucket log under the invariants.
+func (f *c05Fleet) exec(oi int, op C05Op) error {
+	i := op.Inst % f.c.N
+	nd := f.nodes[i]
+	where := fmt.Sprintf("step %d (%s i%d)", oi, op.Kind, i)
+	switch op.Kind {
+	case "app":
+		if err := f.appCommit(i, op.Changes); err != nil {
+			return fmt.Errorf("%s: harness: %v", where, err)
+		}
+	case "step":
+		if err := f.step(i, op.Steps, op.Until); err != nil {
+			return fmt.Errorf("%s: %w", where, err)
+		}
+	case "settle":
+		time.Sleep(3 * time.Millisecond)
+	case "crash":
+		if !nd.parked {
+			return nil
+		}
+		// is this instance the only holder of some published key?
+		newest := f.newestPerInstance()
+		if own := newest[nd.Name]; own != "" {
+			for dbi, m := range f.decoded[own] {
+				for k := range m {
+					sole := true
+					for inst, n := range newest {
+						if inst != nd.Name {
+							if _, ok := f.decoded[n][dbi][k]; ok {
+								sole = false
+							}
+						}
+					}
+					if sole {
+						f.stats.soleCopyAtRisk = true
+					}
+				}
+			}
+		}
+		if err := nd.Crash(); err != nil {
+			return fmt.Errorf("%s: %v", where, err)
+		}
+		f.stats.crashes++
+		if !op.Keep {
+			nd.Env.Close()
+			nd.Env = lm.New(64<<20, 24)
+			f.stats.emptiedRestart++
+		}
+		if _, err := nd.Start(); err != nil {
+			return fmt.Errorf("%s: restart: %v", where, err)
+		}
+		f.stats.restarts++
+	case "clean":
+		if nd.S == nil {
+			return nil
+		}
+		f.now = f.now.Add(time.Duration(op.DtNs))
+		if rn := time.Now(); rn.After(f.now) {
+			f.now = rn
+		}
+		_ = nd.S.VerifCleaner().RunOnce(context.Background(), f.now)
+	case "fault":
+		nd.H.SetPlan(op.FKind, op.Faults)
+	case "corrupt-own":
+		// a damaged upload: the newest snapshot of this instance is replaced by garbage under a newer name
+		nm := snapshot.Name(DBName, nd.Name, "GX", time.Now())
+		f.b.Put(nm, []byte("garbage, not gzip"))
+	}
+	if err := f.replayLog(where); err != nil {
+		return err
+	}
+	return nil
+}
+
 func checkC05(c C05Case, o *vcore.Obs) error {
 	f, err := newC05Fleet(c)
 	if err != nil {
@@ -275,73 +349,7 @@ func checkC05(c C05Case, o *vcore.Obs) error {
 		}
 	}
 	for oi, op := range c.Ops {
-		i := op.Inst % c.N
-		nd := f.nodes[i]
-		where := fmt.Sprintf("step %d (%s i%d)", oi, op.Kind, i)
-		switch op.Kind {
-		case "app":
-			if err := f.appCommit(i, op.Changes); err != nil {
-				return fmt.Errorf("%s: harness: %v", where, err)
-			}
-		case "step":
-			if err := f.step(i, op.Steps, op.Until); err != nil {
-				return fmt.Errorf("%s: %w", where, err)
-			}
-		case "settle":
-			time.Sleep(3 * time.Millisecond)
-		case "crash":
-			if !nd.parked {
-				continue
-			}
-			// is this instance the only holder of some published key?
-			newest := f.newestPerInstance()
-			if own := newest[nd.Name]; own != "" {
-				for dbi, m := range f.decoded[own] {
-					for k := range m {
-						sole := true
-						for inst, n := range newest {
-							if inst != nd.Name {
-								if _, ok := f.decoded[n][dbi][k]; ok {
-									sole = false
-								}
-							}
-						}
-						if sole {
-							f.stats.soleCopyAtRisk = true
-						}
-					}
-				}
-			}
-			if err := nd.Crash(); err != nil {
-				return fmt.Errorf("%s: %v", where, err)
-			}
-			f.stats.crashes++
-			if !op.Keep {
-				nd.Env.Close()
-				nd.Env = lm.New(64<<20, 24)
-				f.stats.emptiedRestart++
-			}
-			if _, err := nd.Start(); err != nil {
-				return fmt.Errorf("%s: restart: %v", where, err)
-			}
-			f.stats.restarts++
-		case "clean":
-			if nd.S == nil {
-				continue
-			}
-			f.now = f.now.Add(time.Duration(op.DtNs))
-			if rn := time.Now(); rn.After(f.now) {
-				f.now = rn
-			}
-			_ = nd.S.VerifCleaner().RunOnce(context.Background(), f.now)
-		case "fault":
-			nd.H.SetPlan(op.FKind, op.Faults)
-		case "corrupt-own":
-			// a damaged upload: the newest snapshot of this instance is replaced by garbage under a newer name
-			nm := snapshot.Name(DBName, nd.Name, "GX", time.Now())
-			f.b.Put(nm, []byte("garbage, not gzip"))
-		}
-		if err := f.replayLog(where); err != nil {
+		if err := f.exec(oi, op); err != nil {
 			return err
 		}
 	}
@@ -486,10 +494,10 @@ var _ = strings.HasPrefix
 // ---- FAULT_ENUM: a stale instance's last snapshot vs. the cleaner of the instance that merged it ----
 
 type enumC05Clean struct {
-	Native bool   `json:"native"`
-	Point  string `json:"point"`
-	Keep   bool   `json:"keep"`
-	StoreFaults int `json:"store_faults"`
+	Native      bool   `json:"native"`
+	Point       string `json:"point"`
+	Keep        bool   `json:"keep"`
+	StoreFaults int    `json:"store_faults"`
 }
 
 func TestC05CleanerEnum(t *testing.T) {
@@ -516,7 +524,7 @@ func TestC05CleanerEnum(t *testing.T) {
 				{Kind: "step", Inst: 1, Steps: 40, Until: "sync.before-sleep"},
 				{Kind: "settle"},
 				{Kind: "step", Inst: 0, Steps: 40, Until: "sync.before-sleep"}, // A merges B's snapshot
-				{Kind: "clean", Inst: 0, DtNs: 0},                               // A's cleaner sees B's snapshot for the first time
+				{Kind: "clean", Inst: 0, DtNs: 0},                              // A's cleaner sees B's snapshot for the first time
 				{Kind: "app", Inst: 0, Changes: put(0, "local-change-on-A")},
 			}
 			if e.StoreFaults > 0 {
